@@ -18,7 +18,10 @@ import (
 	"golang.org/x/tools/go/ssa"
 )
 
-type targetPanic struct{ v Value }
+type targetPanic struct {
+	v  Value
+	at []string
+}
 
 // pathAbort ends the current path silently (infeasible / assumption failed).
 type pathAbort struct{ why string }
@@ -279,7 +282,8 @@ func (e *Engine) panicMessage(v Value) string {
 }
 
 func (e *Engine) rtPanic(msg string) {
-	panic(targetPanic{iface{t: e.runtimeErrT, v: e.mkStr("runtime error: " + msg)}})
+	_, st := e.whereStack(e.curFrame)
+	panic(targetPanic{v: iface{t: e.runtimeErrT, v: e.mkStr("runtime error: " + msg)}, at: st})
 }
 
 // ---------- calls ----------
@@ -393,6 +397,7 @@ func (e *Engine) runFrame(fr *frame) {
 		nonPhis := e.executePhis(fr)
 		for _, instr := range nonPhis {
 			fr.curInstr = instr
+			e.curFrame = fr
 			e.steps++
 			if e.steps > e.StepLimit {
 				panic(engineError{fmt.Sprintf("step budget of %d instructions exceeded (unbounded loop?)", e.StepLimit)})
@@ -645,7 +650,8 @@ func (e *Engine) visitInstr(fr *frame, instr ssa.Instruction) int {
 		fr.runDefers()
 
 	case *ssa.Panic:
-		panic(targetPanic{fr.get(instr.X)})
+		_, st := e.whereStack(fr)
+		panic(targetPanic{v: fr.get(instr.X), at: st})
 
 	case *ssa.Send:
 		panic(unsupported{"channel send"})
@@ -769,7 +775,7 @@ func (e *Engine) visitInstr(fr *frame, instr ssa.Instruction) int {
 	case *ssa.MapUpdate:
 		m := fr.get(instr.Map).(*MapObj)
 		if m == nil {
-			panic(targetPanic{e.mkStr("assignment to entry in nil map")})
+			panic(targetPanic{v: e.mkStr("assignment to entry in nil map")})
 		}
 		e.mapInsert(m, fr.get(instr.Key), fr.get(instr.Value))
 
@@ -1115,7 +1121,7 @@ func (e *Engine) typeAssert(instr *ssa.TypeAssert, itf iface) Value {
 	}
 	if err != "" {
 		if !instr.CommaOk {
-			panic(targetPanic{iface{t: e.runtimeErrT, v: e.mkStr(err)}})
+			panic(targetPanic{v: iface{t: e.runtimeErrT, v: e.mkStr(err)}})
 		}
 		return tuple{e.zero(instr.AssertedType), e.tt.Bool(false)}
 	}
@@ -1255,7 +1261,7 @@ func (e *Engine) callBuiltin(caller *frame, pos token.Pos, fn *ssa.Builtin, args
 		return acc
 
 	case "panic":
-		panic(targetPanic{args[0]})
+		panic(targetPanic{v: args[0]})
 
 	case "recover":
 		return e.doRecover(caller)
